@@ -37,7 +37,7 @@ def queries(tier):
         if tlen is not None:
             defs['TLEN'] = tlen
         return dict(name='ppm_%s_%dx%da%d_cw%d%s' % (('colour_save', 'gray_decode', 'colour_load')[mode], W, H, A, CW, '' if tlen is None else '_cut%d' % tlen), unit='img', harness='h_ppm.c', defs=defs,
-                    unwind=max(W, H, 8) + 2, unwindset='in_bytes.0:%d,w_set_data.0:%d,verif_memset_loop.0:%d,X_fread.0:%d,X_fwrite.0:%d,verif_memcpy_loop.0:%d,harness.0:%d,harness.1:%d,harness.2:%d,harness.3:100,harness.4:100,put_str.0:40,put_dec.0:22,put_dec.1:22,fscanf_core.0:6,fscanf_core.1:22,snprintf_core.0:80,snprintf_core.1:22,snprintf_core.2:22,strlen.0:100,X_fgets.0:260,X__ZN5phosg5fgetsB5cxx11EP8_IO_FILE.0:42,X__ZN5phosg5fgetsB5cxx11EP8_IO_FILE.1:42,memcmp.0:30,X_strtoull.0:4,X_strtoull.1:24' % (n, n, 260, n, 100, 260, 100, 100, 100),
+                    unwind=max(W, H, 8) + 2, unwindset='in_bytes.0:%d,w_set_data.0:%d,verif_memset_loop.0:%d,X_fread.0:%d,X_fwrite.0:%d,verif_memcpy_loop.0:%d,harness.0:%d,harness.1:%d,harness.2:%d,harness.3:100,harness.4:100,put_str.0:40,put_dec.0:22,put_dec.1:22,fscanf_core.0:6,fscanf_core.1:22,snprintf_core.0:24,snprintf_core.1:24,snprintf_core.2:90,strlen.0:100,X_fgets.0:260,X__ZN5phosg5fgetsB5cxx11EP8_IO_FILE.0:42,X__ZN5phosg5fgetsB5cxx11EP8_IO_FILE.1:42,memcmp.0:30,X_strtoull.0:4,X_strtoull.1:24' % (n, n, 260, n, 100, 260, 100, 100, 100),
                     timeout=900, mem_gb=8, object_bits=12, flags=FLAGS,
                     desc='%s, %dx%d, alpha=%d, %d-bit samples, %s: exception or identical' % (('colour PPM/PAM save: file == canonical Netpbm header + raw samples', 'grayscale PPM/PAM input: (g,g,g[,a]) expansion, memory safety', 'colour PPM/PAM load of the canonical file: identity')[mode], W, H, A, CW, 'every prefix that ends inside the samples (symbolic)' if tlen is None else 'prefix of %d bytes (inside the header)' % tlen),
                     bounds='image %dx%d, all sample bytes, every truncation length' % (W, H))
